@@ -199,6 +199,8 @@ def run(idx, rep, tier):
     # an outer comment without mode settings changes nothing: what it contributes is merged into the metadata the csvpath already has
     # (the settings made through the API live there), never put in their place
     c15.metadata_merge(idx, rep, "R6")
+    # … and the modes are refreshed the same way with and without such a comment (the mode controller's update, for every kind of metadata)
+    c15.r2(idx, K.as_rule(rep, "R6", keep=lambda k: "ModeController.update updates" in k))
     # ---- R1 static
     try:
         lark.Lark(mm.gsrc, parser="lalr", start=mm.ctor.get("start", "match"))
@@ -240,6 +242,10 @@ def run(idx, rep, tier):
     for (t, s) in HEADERS:
         fixed.append(([f"not({t})"], [("Expression", (("Function", "not", (), s),))]))
         fixed.append(([f"{t} == \"x\" -> @hit = {t}"], [("Expression", (("Equality", "->", ("Equality", "==", s, ("Term", "x", "str")), ("Equality", "=", ("Variable", "hit", ()), s)),))]))
+    # qualifiers are kept as written (a name qualifier is case-sensitive: tally.ByCity keeps its counts under ByCity_…)
+    fixed.append((["tally.ByCity(#city)"], [("Expression", (("Function", "tally", ("ByCity",), ("Header", "city", ())),))]))
+    fixed.append((["count.Total.onmatch(#a)"], [("Expression", (("Function", "count", ("Total", "onmatch"), ("Header", "a", ())),))]))
+    fixed.append((["@Total.Latch = #a"], [("Expression", (("Equality", "=", ("Variable", "Total", ("Latch",)), ("Header", "a", ())),))]))
     cases = list(fixed)
     for _ in range(n_ast):
         k = rnd.randint(1, 4)
@@ -333,6 +339,57 @@ def r4(idx, rep, mm):
     rep.check(gotm == texts, "R4", f"{fmi.file}::Matcher.__init__ builds the components from the tree of its own match part",
               f"for the match parts {texts} (parsed one after the other in one process) the trees handed to the transformer were parsed from {gotm}: "
               "a csvpath that differs from an earlier one only inside a quoted string or regex runs the earlier one's literals", K.where(fmi, fmi.node))
+    # the factory links the argument subtree to the function it builds (the tree is navigated upwards too: my_expression, durable ids)
+    fg = idx.method("FunctionFactory", "get_function")
+    rep.analysed(fg)
+    itg = Interp(idx, types={"cls": "FunctionFactory", "FunctionFactory": "FunctionFactory"}, unknown_calls="residual", max_loop=4000, inline_all={"FunctionFactory"},
+                 handlers={"Count": lambda i, c, r, a, k: Obj("F")}, domains={"F.matcher": [Obj("M")]})
+    itg.types["CH"] = "Header"   # (a Matchable)
+    psg = itg.run_all(fg, args={"matcher": Obj("M"), "name": "count", "child": Obj("CH")}, selfkey="cls", store={"CH.parent": None})
+    okg = len(psg) >= 1 and all(p.result == ("return", Obj("F")) and p.final_store.get("CH.parent") == Obj("F") for p in psg)
+    rep.check(okg, "R4", f"{fg.file}::FunctionFactory.get_function links the child to the function", f"{[(p.result, p.final_store.get('CH.parent')) for p in psg][:2]}; documented: returns the "
+              "function built for the name, with child.parent set to it", K.where(fg, fg.node))
+    # … and builds a component for a name the same way every time the name is used in a process (class-level state of the factory is
+    # shared by all csvpaths): the names whose class takes more than (matcher, name, child) — median, percent … — asked twice
+    extra = sorted({n_.args[1].value if len(n_.args) > 1 and isinstance(n_.args[1], ast.Constant) else None for n_ in ast.walk(fg.node)
+                    if isinstance(n_, ast.Call) and isinstance(n_.func, ast.Name) and idx.has_cls(n_.func.id) and len(n_.args) + len(n_.keywords) > 3} - {None})
+    names2 = []
+    for st_ in ast.walk(fg.node):
+        if isinstance(st_, ast.If) and isinstance(st_.test, ast.Compare) and len(st_.test.comparators) == 1 and isinstance(st_.test.comparators[0], ast.Constant) \
+                and any(isinstance(c_, ast.Call) and isinstance(c_.func, ast.Name) and idx.has_cls(c_.func.id) and len(c_.args) + len(c_.keywords) > 3 for b_ in st_.body for c_ in ast.walk(b_)):
+            names2.append(st_.test.comparators[0].value)
+    names2 = sorted(set(n_ for n_ in names2 if isinstance(n_, str)))[:6] + ["count"]
+
+    def _shape(v):
+        try:
+            t = ast.parse(v.text if isinstance(v, Residual) else repr(v), mode="eval").body
+        except SyntaxError:
+            return repr(v)
+        if not isinstance(t, ast.Call):
+            return repr(v)
+        f_ = t.func
+        while isinstance(f_, (ast.Attribute, ast.Call, ast.Subscript)):
+            f_ = f_.value if not isinstance(f_, ast.Call) else f_.func
+        return (getattr(f_, "id", "?"), [ast.dump(a_) for a_ in t.args], sorted((k_.arg, ast.dump(k_.value)) for k_ in t.keywords))
+
+    bad = None
+    for nm in names2:
+        it2 = Interp(idx, types={"cls": "FunctionFactory", "FunctionFactory": "FunctionFactory", "CH": "Header"}, unknown_calls="residual", max_loop=4000,
+                     inline_all={"FunctionFactory"})
+
+        def prog2(i, nm=nm):
+            a_ = i.call_function(fg, {"matcher": Obj("M"), "name": nm, "child": Obj("CH")}, "cls")
+            b_ = i.call_function(fg, {"matcher": Obj("M"), "name": nm, "child": Obj("CH")}, "cls")
+            return a_, b_
+
+        ps2 = it2.run_program(prog2, {"CH.parent": None})
+        for p_ in ps2:
+            if p_.result[0] != "return":
+                continue
+            a_, b_ = p_.result[1]
+            if _shape(a_) != _shape(b_):
+                bad = bad or f"{nm}(): the first use in a process builds {a_!r}, the second {b_!r}: the same source text gives a different component the second time"
+    rep.check(bad is None and len(names2) >= 2, "R5", f"{fg.file}::FunctionFactory.get_function builds the same component for a name every time", bad or f"{names2}", K.where(fg, fg.node))
 
 
 def r5(idx, rep):
